@@ -49,6 +49,16 @@ def _strip(t):
 
 
 def _run(real, parser, w, glr):
+    """outcome record; `res` and `full` are canonical JSON STRINGS of the projected trees (TLC compares them as values; strings keep the case files small)"""
+    import json
+
+    o = _run0(real, parser, w, glr)
+    o["res"] = json.dumps(o["res"], separators=(",", ":"))
+    o["full"] = json.dumps(o["full"], separators=(",", ":"))
+    return o
+
+
+def _run0(real, parser, w, glr):
     try:
         with real.guard(8), real.quiet():
             r = parser.parse(w)
@@ -126,7 +136,7 @@ def worker(job):
             if w in seen:
                 continue
             seen.add(w)
-            none = {"kind": "none", "res": [], "full": [], "cls": "", "pos": -1}
+            none = {"kind": "none", "res": "[]", "full": "[]", "cls": "", "pos": -1}
             v = {"text": w, "tokstart": starts, "endpos": end, "wsonly": all(set(f) <= set(ws if ws is not None else " \t\n\r") for f in fl),
                  "lr": _run(real, lr, w, False) if lr else none, "glr": _run(real, glr, w, True),
                  "lrL": _run(real, lrL, w, False) if lrL else none, "glrL": _run(real, glrL, w, True) if glrL else none}
